@@ -31,7 +31,7 @@ func (c *Ctx) references(scs []*Scenario, cfgs func(*Scenario) []Cfg) map[refKey
 		for _, cfg := range cfgs(sc) {
 			sp := soloSpec(fmt.Sprintf("ref/%s/%s", sc.Name, cfg), sc, cfg)
 			sp.Order.Pin = nil
-			sp.Budget = 3000000000
+			sp.Budget = 1000000000
 			specs = append(specs, sp)
 			refs = append(refs, &Ref{Spec: sp, Sc: sc, Cfg: cfg})
 		}
@@ -328,6 +328,9 @@ func (c *Ctx) runOrderCases(refs map[refKey]*Ref, cases []planCase, class string
 // minimizeOrder shrinks the set of permuted sites of a differing plan to a
 // 1-minimal set (ddmin over sites), then prefers reverse over shuffle.
 func (c *Ctx) minimizeOrder(ref *Ref, bad *Spec, class string) *Finding {
+	if !c.mayMinimize() {
+		return &Finding{Class: class, Scenario: ref.Sc.Name, Where: "not-minimised", Detail: "(not minimised) plan " + bad.ID, Spec: bad, Spec2: ref.Spec, Oracle: "trace equality with the canonical reference", Expect: "trace-differs-from-spec2"}
+	}
 	differs := func(sp *Spec) bool {
 		r := c.Pool.Run([]*Spec{sp}, nil)[0]
 		got := outcomeSig(r.op("t"))
@@ -686,6 +689,9 @@ func dependencyClosed(ops []Op, keep map[int]bool) []Op {
 }
 
 func (c *Ctx) minimizeHistory(bad *Spec, writeID string, ref *Ref) *Finding {
+	if !c.mayMinimize() {
+		return &Finding{Class: "history", Scenario: ref.Sc.Name, Where: "not-minimised", Detail: "(not minimised) history " + historySig(bad), Spec: bad, Spec2: ref.Spec, Oracle: "trace equality with the solo reference", Expect: "op " + writeID + " trace-differs-from-spec2"}
+	}
 	ops := bad.Tasks[0]
 	target := -1
 	for i, o := range ops {
@@ -864,6 +870,9 @@ func (c *Ctx) stageInterleave(refs map[refKey]*Ref, keys []refKey) {
 }
 
 func (c *Ctx) minimizeInterleave(bad *Spec, task int, ref *Ref, r0 *Result) *Finding {
+	if !c.mayMinimize() {
+		return &Finding{Class: "interleave", Scenario: ref.Sc.Name, Where: "not-minimised", Detail: "(not minimised)", Spec: bad, Spec2: ref.Spec, Oracle: "trace equality with the solo reference", Expect: fmt.Sprintf("task %d trace-differs-from-spec2", task)}
+	}
 	differs := func(sp *Spec) bool {
 		r := c.Pool.Run([]*Spec{sp}, nil)[0]
 		got := r.taskOp(task, "t")
